@@ -49,6 +49,22 @@ def templates():
                 vbs += rc.tlv(0x30, rc.tlv(0x0D, bytes(rel)) + rc.enc_int(2))
                 pdu = rc.tlv(0xA2, rc.enc_int(0x1234567) + rc.enc_int(0) + rc.enc_int(0) + rc.tlv(0x30, vbs))
                 out.append(dict(name="v2c-reloid-%d" % k, ver="v2c", cfg="v2c", b=list(rc.enc_community_msg("v2c", b"public", pdu)), nomutate=True))
+    # large replies: the receive buffer takes 4080 octets although the client announces msgMaxSize 2048
+    for cfgname in ("v2c", "v1", "v3-noauth", "v3-md5", "v3-sha1", "v3-md5-des", "v3-sha1-aes"):
+        cfg = std[cfgname]
+        for total in (1400, 2047, 2048, 2049, 2050, 3000, 4000, 4079, 4080):
+            req = FakeReq(cfg, [rc.oid_content(n1)])
+            pad = max(0, total - 120)
+            d = agent.reply(cfg, req, [(n1, ("octets", b"x" * pad))])
+            # adjust the filler so that the datagram has exactly `total` octets
+            for _ in range(6):
+                pad += total - len(d)
+                if pad < 0:
+                    break
+                d = agent.reply(cfg, req, [(n1, ("octets", b"x" * pad))])
+                if len(d) == total:
+                    break
+            out.append(dict(name="%s-big-%d" % (cfgname, len(d)), ver=cfg.ver, cfg=cfgname, b=list(d), nomutate=True))
     # plaintext scoped PDUs (mutated, then encrypted by the driver: the privacy decrypt path)
     sc = rc.enc_scoped(agent.engine, b"", rc.enc_pdu("response", 0x1234567, 0, 0, [(n1, ("int", 3))]))
     out.append(dict(name="scoped-plain", ver="scoped", cfg="v3-md5-des", b=list(sc)))
